@@ -107,6 +107,8 @@ def leaf_kinds(T, acc):
             leaf_kinds(b, acc)
     elif tag in ("newtype", "fwd", "tvarc", "tvarb", "stype", "alias695"):
         leaf_kinds(T[2], acc)
+    elif tag == "rec695":
+        leaf_kinds(T[3], acc)
     elif tag in ("utuple", "ustar"):
         for e in T[1]:
             leaf_kinds(e, acc)
